@@ -72,6 +72,57 @@ def send_classes():
     return S.send_classes() + more + own
 
 
+TEXTS = [("", None), ("latin1", "caf\xe9 \xfc"), ("nonlatin1", "pre \u20ac post")]
+# 'odd but legal' header-ish tags an application may set on a message it hands to send_msg
+ODD_TAGS = [
+    ("none", []),
+    ("97Y", [(97, "Y")]),
+    ("97Y-stale34", [(97, "Y"), (34, "57")]),
+    ("97N-34", [(97, "N"), (34, "NEXT-1")]),
+    ("43N-34", [(43, "N"), (34, "NEXT+5")]),
+    ("122-52", [(122, "20240101-00:00:00.000"), (52, "20200101-00:00:00")]),
+    ("stale34-369", [(34, "1"), (369, "3")]),
+    ("97Y-43N-122-34-52-369", [(97, "Y"), (43, "N"), (122, "20240101-00:00:00"), (34, "NEXT+2"), (52, "t"), (369, "9")]),
+]
+# kinds of message w.r.t. numbering: new ones and ones that carry their own number
+BASE_KINDS = [
+    ("App", "D", [(11, "c1")]),
+    ("Custom", "U1", []),
+    ("Heartbeat", "0", []),
+    ("Logout", "5", []),
+    ("Logon", "A", [(98, "0"), (108, "30")]),
+    ("Own-possdup-last", "D", [(11, "c1"), (43, "Y"), (34, "NEXT-1")]),
+    ("Own-possdup-hole", "D", [(11, "c1"), (43, "Y"), (34, "NEXT-2")]),
+    ("Own-possdup-at", "D", [(11, "c1"), (43, "Y"), (34, "NEXT")]),
+    ("Own-seqreset-low", "4", [(34, "1"), (36, "9")]),
+    ("Own-seqreset-at", "4", [(123, "Y"), (34, "NEXT"), (36, "NEXT+3")]),
+    ("Own-possdup-no34", "D", [(11, "c1"), (43, "Y")]),
+]
+
+
+def compose(kind, text, odd):
+    """(mtype, tags, label): a base kind with optional free text (58) and odd header-ish tags; a tag the
+    base kind already carries is not overridden"""
+    name, mt, tags = kind
+    tags = list(tags)
+    have = {t for t, _ in tags}
+    if text[1] is not None:
+        tags.append((58, text[1]))
+    for t, v in odd[1]:
+        if t not in have:
+            tags.append((t, v))
+            have.add(t)
+    return mt, tags, f"{name}/{text[0] or 'plain'}/{odd[0]}"
+
+
+def send_matrix(k):
+    """the (kind x text x odd tags) matrix, three odd-tag combinations per cell, cycling with k"""
+    for kind in BASE_KINDS:
+        for text in TEXTS:
+            for j in range(3):
+                yield compose(kind, text, ODD_TAGS[(k + 3 * j + len(kind[0])) % len(ODD_TAGS)])
+
+
 def subst(tags, a):
     out = []
     for t, v in tags:
@@ -97,6 +148,12 @@ def single_step_slice(rng):
                         a.test_req_id = tr
                         a = S.with_journal(a, shape)
                         yield (a, "all", ("send", S.T0, (mt, subst(tags, a))), f"send:{lab}")
+            for mt, tags, lab in send_matrix(k):
+                k += 1
+                a = S.base_state(st, role, k)
+                a.test_req_id = None if k % 2 else S.T0 // 1000 - 3
+                a = S.with_journal(a, ("app", "holes", "empty")[k % 3])
+                yield (a, "all", ("send", S.T0, (mt, subst(tags, a))), f"send:{lab}")
             proto = S.base_state(st, role, 0)
             for lab in sending_inbound:
                 for slab in ("at", "plus1", "far", "below"):
@@ -145,16 +202,22 @@ def fresh(rng):
 
 
 def app_send(rng, a, own):
+    """an application send: half of the time drawn from the (kind x text x odd tags) dimensions"""
     r = rng.random()
-    if own and r < 0.25:
+    if r < 0.5:
+        kinds = BASE_KINDS if own else BASE_KINDS[:5]
+        kind = rng.choice(kinds[:2] * 3 + kinds)
+        text = rng.choice([TEXTS[0], TEXTS[0], TEXTS[1], TEXTS[2]])
+        odd = rng.choice([ODD_TAGS[0]] * 3 + ODD_TAGS)
+        mt, tags, lab = compose(kind, text, odd)
+    elif own and r < 0.6:
         mt, tags, lab = rng.choice(send_classes()[-6:])
-    elif r < 0.55:
+    elif r < 0.8:
         mt, tags, lab = rng.choice([("D", [(11, "c%d" % rng.randrange(99)), (58, "text")], "App"),
                                     ("8", [(37, "o1"), (39, "0")], "ExecReport"),
                                     ("U1", [(58, "custom")], "App-custom"),
-                                    ("D", [(58, "caf\xe9")], "App-latin1")])
-    elif r < 0.65:
-        mt, tags, lab = ("D", [(58, "€ uro")], "App-nonlatin1")
+                                    ("D", [(58, "caf\xe9")], "App-latin1"),
+                                    ("D", [(58, "\u20ac uro")], "App-nonlatin1")])
     else:
         cls = [c for c in send_classes()[:-6] if c[2] not in ("SeqReset-34", "SeqReset-34garbled", "App-possdup-34")]
         mt, tags, lab = rng.choice(cls)
@@ -465,7 +528,8 @@ def oracle_history(impl, start, events):
         kind = ev[0]
         if kind == "send":
             mt, tags = ev[2]
-            if mt == "4" or dict(tags).get(43) == "Y":
+            # only a send that actually LEFT under a number of the application's choosing is the known class
+            if (mt == "4" or dict(tags).get(43) == "Y") and writes:
                 own_seen = i if own_seen is None else own_seen
         if kind == "recv" and ev[2][0] == "2":
             fs = dict((t, v) for t, v in ev[2][1])
@@ -474,15 +538,33 @@ def oracle_history(impl, start, events):
             except (TypeError, ValueError):
                 pass
         cls = "C05-app-own-number" if own_seen is not None else None
-        # ---- refused sends change nothing
-        if kind == "send" and "Connection" in raised:
-            if impl.dump() != before or writes:
-                fail("C05-refused-send-changed-state", "a send refused with FIXConnectionError changed the connection / wrote", i,
-                     before, impl.dump())
-        if kind == "send" and "Encoding" in raised and not (ev[2][0] == "4" or dict(ev[2][1]).get(43) == "Y"):
-            b, a_ = S.parse_conn_tokens(before), S.parse_conn_tokens(impl.dump())
-            if writes or (b.next_out, b.stored_out, b.out_rows) != (a_.next_out, a_.stored_out, a_.out_rows):
-                fail("C05-encoding-refusal-consumed", "EncodingError left a number consumed / a row / bytes", i)
+        # ---- a refused send (raises, nothing written) consumes no number and leaves no journal entry -
+        #      whatever the message (new or numbered by the application) and whatever the reason.
+        #      Never absorbed by a known signature, except the documented consequence of C05-app-own-number:
+        #      a new message that meets a row an own-number send put at the counter (DuplicateSeqNoError).
+        if kind == "send" and raised:
+            after = impl.dump()
+            b_, a_ = S.parse_conn_tokens(before), S.parse_conn_tokens(after)
+            same_numbering = (b_.next_out, b_.stored_out, b_.out_rows) == (a_.next_out, a_.stored_out, a_.out_rows)
+            if "Connection" in raised:
+                if after != before or writes:
+                    fail("C05-refused-send-changed-state",
+                         "a send refused with FIXConnectionError changed the connection / wrote", i, before, after)
+            elif "Attribute" in raised:
+                pass  # no transport object (set-up state only): the message WAS accepted and journaled (F9 order)
+            elif not writes and not same_numbering:
+                if "DuplicateSeqNo" in raised:
+                    fail(cls or "C05-refusal-consumed:DuplicateSeqNo",
+                         "a send refused with DuplicateSeqNoError consumed a number / changed the journal", i,
+                         (b_.next_out, b_.stored_out), (a_.next_out, a_.stored_out))
+                elif "Encoding" in raised:
+                    fail("C05-encoding-refusal-consumed",
+                         "a send refused with EncodingError moved a counter / left a row", i,
+                         (b_.next_out, b_.stored_out), (a_.next_out, a_.stored_out))
+                else:
+                    fail("C05-refusal-consumed:" + "+".join(raised),
+                         "a refused send moved a counter / left a row", i,
+                         (b_.next_out, b_.stored_out), (a_.next_out, a_.stored_out))
         # ---- numbering of new messages
         if kind == "reset" and not raised:
             expected_next = 1
